@@ -125,7 +125,7 @@ def specViews (c : Case) (o : Obs) : Bool :=
   o.byIndex == names &&
   (!nodupStr names ||
     (o.byName == c.probes.map (fun p => indexOf? (fun f => f.name == p) o.fields) && o.dictKeys == names)) &&
-  o.dictAgree &&
+  o.dictAgree && o.histAgree &&
   -- has
   o.has.length == c.classes.length &&
   (List.range c.classes.length).all (fun b =>
